@@ -1578,5 +1578,5 @@ class XsdAlternative(XsdComponent):
         try:
             result = list(self.token.select(context=XPathContext(elem)))
             return self.token.boolean_value(result)
-        except (TypeError, ValueError):
+        except (TypeError, ValueError, ArithmeticError):
             return False
